@@ -59,11 +59,14 @@ class _SymTZ(datetime.tzinfo):
 class _SymDelta:
     """timedelta stand-in: only None-ness, total_seconds() and == are supported."""
 
-    def __init__(self, secs):
+    def __init__(self, secs, us=0):
         self.secs = secs
+        self.us = us          # 0 <= us < 10**6, as timedelta normalises
 
     def total_seconds(self):
-        return self.secs
+        if _is_zero(self.us):
+            return self.secs
+        return SymSeconds(self.secs, self.us)
 
     # timedelta normalises to days >= any sign, 0 <= seconds < 86400
     @property
@@ -76,10 +79,12 @@ class _SymDelta:
 
     @property
     def microseconds(self):
-        return 0
+        return self.us
 
     def __bool__(self):
-        return self.secs != 0
+        if self.secs != 0:          # decided here: __bool__ must return a real bool
+            return True
+        return False
 
     def __neg__(self):
         return _SymDelta(-self.secs)
@@ -374,13 +379,13 @@ class SymDT(datetime.datetime):
             if (self._off is None) != (other.tzinfo is None):
                 raise TypeError("can't subtract offset-naive and offset-aware datetimes")
             if other.tzinfo is None:
-                base = calendar.timegm(other.timetuple())
+                base = _real_timegm(other.timetuple())
                 d = self._wall - base
             else:
                 base = int(other.timestamp())
                 d = (self._wall - self._off) - base
-            if _is_zero(self._us) and other.microsecond == 0:
-                return _SymDelta(d)
+            if other.microsecond == 0:
+                return _SymDelta(d, self._us)
             _unsupported('datetime difference with microseconds')
         _unsupported('datetime - %s' % type(other).__name__)
 
